@@ -9,7 +9,8 @@
 (* escapes to the caller).  Everything else is Encoder!Enc.                           *)
 EXTENDS Tokenizer, Encoder, Json
 
-CONSTANTS Atoms, K, Shard, St0, KeepChars, PCfg, VPartial
+CONSTANTS Atoms, K, Shard, St0, KeepChars, PCfg, VPartial,
+          NfcTab      \* <<base, combining, composed>> triples: the input is NFC-normalised first, as in Encoder
 
 RECURSIVE Flat(_)
 Flat(sq) == IF sq = <<>> THEN <<>> ELSE Atoms[Head(sq)] \o Flat(Tail(sq))
@@ -31,10 +32,11 @@ vars == <<s, res, done>>
 Init == /\ IF Shard = 0 THEN s = <<>>
            ELSE \E n \in 0..(K - 1) : \E sq \in [1..n -> 1..Len(Atoms)] : s = Atoms[Shard] \o Flat(sq)
         /\ res = <<>> /\ done = FALSE
-Next == ~done /\ done' = TRUE /\ UNCHANGED s /\ res' = PEnc(s, 1, <<>>)
+T == Nfc(NfcTab, s)
+Next == ~done /\ done' = TRUE /\ UNCHANGED s /\ res' = PEnc(T, 1, <<>>)
 Spec == Init /\ [][Next]_vars
 NeverRaises == done => res.ok
 (* where no keep character occurs, the partial encoder is the plain encoder *)
-SameAsPlainWithoutKeepChars == (done /\ \A i \in 1..Len(s) : s[i] \notin KeepChars) => res.out = Enc(PCfg, s, 1, <<>>, <<>>).out
+SameAsPlainWithoutKeepChars == (done /\ \A i \in 1..Len(s) : s[i] \notin KeepChars) => res.out = Enc(PCfg, T, 1, <<>>, <<>>).out
 Emit == done => PrintT(ToJson([s |-> s, ok |-> res.ok, out |-> res.out, what |-> res.what]))
 =============================================================================
